@@ -586,6 +586,11 @@ func tail(s string, n int) string {
 var retrySem = make(chan struct{}, 4)
 
 func (E *Engine) solveOne(r *FuncResult, o *Obligation, dir string, sem chan struct{}) {
+	if o.Kind == "spec" {
+		o.Status = "failed"
+		o.Model = o.SpecErr + "\n"
+		return
+	}
 	f := filepath.Join(dir, safeName(strings.TrimPrefix(o.Name, r.Key))+".smt2")
 	writeFile(f, r.scriptUpTo(o, false))
 	o.SmtFile = f
